@@ -4,7 +4,7 @@ R-KEEP-KEY, R-HASH-SOURCE, R-PAR-LINEAR, R-SPLIT-ABUT, R-PAR-DELEGATION,
 R-SERDE-CAUTIOUS, R-SERDE-INSERT."""
 from core import callee_path, last_field, rv_operands
 from cond import sources, branch_sources, controlling_sources
-from rules.base import Result, where, line_of
+from rules.base import Result, where, line_of, param_of_type
 from rules.accounting import deep_root, operand_deep_root
 from rules.iters import _is_exhaustion_branch
 
@@ -755,7 +755,13 @@ def r_split_abut(F, V):
         i, s = end_stores[0]
         S_end = sources(b, s["rv"]["op"]) if s["rv"]["k"] == "use" else None
         j, t = news[0]
-        tail_start = t["args"][0]
+        # the ctrl parameter of RawIterRange::new is identified by its type (`*const u8`), not by position
+        nb = F.bodies.get("raw::RawIterRange::new")
+        pc = param_of_type(nb, "*const u8") if nb is not None else 1
+        if pc is None or pc > len(t["args"]):
+            R.undec("raw::RawIterRange::new: no unique `*const u8` parameter")
+            return R
+        tail_start = t["args"][pc - 1]
         r_end = b.root_of_place(s["rv"]["op"]["p"])[0] if s["rv"]["k"] == "use" and s["rv"]["op"]["k"] in ("copy", "move") else None
         r_tail = b.root_of_place(tail_start["p"])[0] if tail_start["k"] in ("copy", "move") else None
         if r_end is None or r_end != r_tail:
